@@ -701,3 +701,59 @@ def break_rule(rng, layout):
                 return (r[2], r[1])
             return (r, tree)
     return None
+
+
+# ------------------------------------------------------------------ helpers for axis operations
+def has_rec_under_list(t, under=False):
+    k = t[0]
+    if k in ('leaf', 'str'):
+        return False
+    if k == 'list':
+        return has_rec_under_list(t[1], True)
+    if k == 'opt':
+        return has_rec_under_list(t[1], under)
+    if k == 'rec':
+        return under or any(has_rec_under_list(ft, under) for _, ft in t[1])
+    if k == 'union':
+        return any(has_rec_under_list(a, under) for a in t[1])
+    return False
+
+
+def has_kind(t, kind):
+    if t[0] == kind:
+        return True
+    if t[0] in ('list', 'opt'):
+        return has_kind(t[1], kind)
+    if t[0] == 'rec':
+        return any(has_kind(ft, kind) for _, ft in t[1])
+    if t[0] == 'union':
+        return any(has_kind(a, kind) for a in t[1])
+    return False
+
+
+def has_empty_rec(t):
+    if t[0] == 'rec':
+        return not t[1] or any(has_empty_rec(ft) for _, ft in t[1])
+    if t[0] in ('list', 'opt'):
+        return has_empty_rec(t[1])
+    if t[0] == 'union':
+        return any(has_empty_rec(a) for a in t[1])
+    return False
+
+
+def pick_axis(rng, t, allow_zero=False):
+    """an axis for an at-axis operation: mostly legal (1..max depth-1, or negative counted from the leaves of
+    every branch), sometimes out of range (error half)"""
+    mn, mx = list_depth(t)
+    lo = 0 if allow_zero else 1
+    r = rng.random()
+    neg_ok = mn - 1 >= (0 if allow_zero else 1) and not has_empty_rec(t)
+    if r < 0.5 or (r < 0.88 and not neg_ok):
+        if mx - 1 >= lo:
+            return rng.randint(lo, mx - 1)
+        return lo if not has_kind(t, 'str') else -mx - 4
+    if r < 0.88:
+        return -rng.randint(1, mn - 1 + (1 if allow_zero else 0))
+    if has_kind(t, 'str') or has_empty_rec(t):
+        return rng.randint(lo, mx - 1) if mx - 1 >= lo else (lo if has_empty_rec(t) and not has_kind(t, 'str') else -mx - 4)
+    return rng.choice([mx, mx + 1, -mx - 1])
